@@ -305,7 +305,25 @@ class Dataflow:
         return st
 
     def kill_path(self, st, path):
-        dead = [k for k in st if any(paths_overlap(p, path) for p in expr_paths(k))]
+        root, elems = path
+        dead = None
+        for k in st:
+            kind = k[0]
+            if kind == "call" or kind == "const":
+                continue
+            if kind == "disc" or kind == "val":
+                q = k[1]
+                if q[0] != root:
+                    continue
+                a, b = q[1], elems
+                n = len(a) if len(a) < len(b) else len(b)
+                if a[:n] != b[:n]:
+                    continue
+            elif not any(paths_overlap(p, path) for p in expr_paths(k)):
+                continue
+            if dead is None:
+                dead = []
+            dead.append(k)
         if dead:
             st = dict(st)
             for k in dead:
@@ -568,6 +586,7 @@ class DisjFlow(Dataflow):
         b = self.b
         empty = frozenset()
         self.states = {0: {empty}}
+        pending = {0: {empty}}          # states of a block that have not been pushed through it yet (delta propagation)
         wl = deque([0])
         inq = {0}
         iters = 0
@@ -577,10 +596,12 @@ class DisjFlow(Dataflow):
             iters += 1
             if iters > 100000:
                 raise RuntimeError("disjunctive dataflow did not converge in " + b.path)
+            todo = pending.pop(bb, ())
             outs = {}
-            for fs in self.states[bb]:
+            stmts = b.stmts(bb)
+            for fs in todo:
                 sts = [dict(fs)]
-                for s in b.stmts(bb):
+                for s in stmts:
                     sts = [n for st in sts for n in self.split_stmt(st, s)]
                 for st in sts:
                     for succ, ns in self.edge_states(bb, st):
@@ -588,17 +609,22 @@ class DisjFlow(Dataflow):
                             continue
                         outs.setdefault(succ, set()).add(frozenset(ns.items()))
             for succ, new in outs.items():
-                self.edge_sets[(bb, succ)] = new
+                self.edge_sets.setdefault((bb, succ), set()).update(new)
                 old = self.states.get(succ, set())
-                if new <= old:
+                fresh = new - old
+                if not fresh:
                     continue
-                merged = old | new
+                merged = old | fresh
                 if succ in self.collapsed or len(merged) > self.CAP:
                     self.collapsed.add(succ)
-                    merged = {frozenset(self._join_all(merged).items())}
-                    if merged == old:
+                    joined = frozenset(self._join_all(merged).items())
+                    if {joined} == old:
                         continue
-                self.states[succ] = merged
+                    self.states[succ] = {joined}
+                    pending[succ] = {joined}
+                else:
+                    self.states[succ] = merged
+                    pending.setdefault(succ, set()).update(fresh)
                 if succ not in inq:
                     inq.add(succ)
                     wl.append(succ)
